@@ -1,4 +1,4 @@
 ---- MODULE MC_ErgSoup ----
 EXTENDS ErgSoup
-AllK == {"ilit", "slit", "flit", "blit", "none", "bin", "call", "lmk", "lget", "tpat", "rec", "lam", "fn2", "attr", "dict", "print", "loop", "assert", "neg", "mut", "cls", "match", "ifexpr"}
+AllK == {"ilit", "slit", "flit", "blit", "none", "bin", "call", "lmk", "lget", "tpat", "rec", "lam", "fn2", "attr", "dict", "print", "loop", "assert", "neg", "mut", "cls", "match", "ifexpr", "erec", "matchd", "matchd2", "recn", "lamd"}
 ====
